@@ -79,7 +79,7 @@ func validateRun(template string, res *RunResult, id string) (int, string) {
 			}
 			return out
 		}
-		c := map[string]interface{}{"id": fmt.Sprintf("%s-%d", res.Cfg.Name, i)}
+		c := map[string]interface{}{"id": fmt.Sprintf("%s-%d", res.Cfg.Name, i), "inputs": s["inputs"]}
 		for k, v := range rec {
 			switch v.(type) {
 			case string:
@@ -127,7 +127,7 @@ func validateRun(template string, res *RunResult, id string) (int, string) {
 		}
 		return 0, "native validation did not run: " + strings.ReplaceAll(tail, "\n", " ")
 	}
-	return agree, fmt.Sprintf("%d sampled passing paths concretised and run through the real Client.Start (go test -overlay, template %s): all agree", agree, template)
+	return agree, fmt.Sprintf("%d sampled passing paths concretised and run through the real code natively (go test -overlay, template %s): the engine's predicted outcome agrees on all of them", agree, template)
 }
 
 var _ = exec.Command
